@@ -6,6 +6,7 @@ index-to-segment arithmetic is a bijection for every index; element addresses ar
 index alone; grow_to_at_least(n) constructs what it claimed for every n (no 32-bit truncation).
 -/
 import TbbVerif.Proofs.C11
+import TbbVerif.Proofs.C11.SegFinal
 
 namespace TbbVerif.C11
 
@@ -132,5 +133,312 @@ example : segIndex 0 = 0 ∧ segIndex 1 = 0 ∧ segIndex 2 = 1 ∧ segIndex 7 = 
     segIndex (2 ^ 63 + 5) = 63 ∧ segBase 0 = 0 ∧ segBase 1 = 2 ∧ segBase 63 = 2 ^ 63 := by decide
 
 example : addrOf 3 5 = (0, 5) ∧ addrOf 3 8 = (3, 0) ∧ addrOf 3 13 = (3, 5) := by decide
+
+/-! ## The segment-table protocol (`Model/C11Seg.lean`: embedded vs. long table, first-block election, segment owners,
+waiters, failure tagging — one model step per atomic access of `_segment_table.h` / `concurrent_vector.h`)
+
+`Seg.sys progs` is the failure-free system (no allocation and no element constructor throws), `Seg.sysF progs fa ft fc`
+the system in which the element-storage allocations numbered `fa`, the long-table allocations numbered `ft` and the element
+constructions numbered `fc` throw.  All theorems are for any number of threads, any call programs and any schedule. -/
+
+open Seg in
+/-- **Slots are written once.**  In every reachable state of a failure-free run, a slot of the embedded table or of the installed
+long table that holds a segment pointer holds the same pointer after any further step of any thread. -/
+theorem seg_slot_write_once (progs : List (List Op)) (sched : List Tid) (tid : Tid) (T k al sft : Nat) :
+    let s := (Seg.sys progs).run sched
+    (T = 0 ∨ (T = s.sh.tptr ∧ s.sh.tptr ≠ 0)) → slot s.sh T k = .ptr al sft → slot (Seg.step s tid).sh T k = .ptr al sft := by
+  intro s hT h
+  exact (step_mono2' s (DInv_reachable progs sched) tid).ptr T k al sft hT h
+
+open Seg in
+/-- … and along every continuation of the run (until clear/shrink, which are not concurrency-safe and not modelled). -/
+theorem seg_slot_stable (progs : List (List Op)) (sched ext : List Tid) (T k al sft : Nat) :
+    let s := (Seg.sys progs).run sched
+    (T = 0 ∨ (T = s.sh.tptr ∧ s.sh.tptr ≠ 0)) → slot s.sh T k = .ptr al sft →
+      slot ((Seg.sys progs).runFrom s ext).sh T k = .ptr al sft :=
+  fun hT h => (stable_run progs sched ext).1 T k al sft hT h
+
+open Seg in
+/-- **The table switch preserves every published segment pointer**: what `my_segment_table[k]` shows (through the embedded
+table before the switch, through the long table after it) never changes once it is a pointer — across the switch included. -/
+theorem table_switch_preserves (progs : List (List Op)) (sched ext : List Tid) (k al sft : Nat) :
+    let s := (Seg.sys progs).run sched
+    visible s.sh k = .ptr al sft → visible ((Seg.sys progs).runFrom s ext).sh k = .ptr al sft :=
+  fun h => (stable_run progs sched ext).2.1 k al sft h
+
+open Seg in
+/-- **No publication into the stale embedded table is lost.**  What the code guarantees: once the long table is installed, every
+non-null slot of the embedded table (threads that still hold a snapshot of it keep publishing there, and the first-block winner
+mirrors its pointer there) has the same value in the long table.  (The switching thread waits for exactly the embedded slots
+that a thread with an embedded snapshot can still fill: `Proofs/C11/SegCross.lean`.) -/
+theorem stale_embedded_publish_not_lost (progs : List (List Op)) (sched : List Tid) (k : Nat) :
+    let s := (Seg.sys progs).run sched
+    s.sh.tptr ≠ 0 → slot s.sh 0 k ≠ .null → slot s.sh s.sh.tptr k = slot s.sh 0 k := by
+  intro s h0 hk
+  rw [slot_nz _ _ _ h0]
+  exact (DInv_reachable progs sched).copy h0 k hk
+
+open Seg in
+/-- **Element addresses are stable.**  If index `i` was constructed in allocation `al` at offset `off`, then in every later
+state it is still recorded so, and the current table still maps its segment to that allocation with `off = i - shift`. -/
+theorem element_address_stable (progs : List (List Op)) (sched ext : List Tid) (i al off : Nat) :
+    let s := (Seg.sys progs).run sched
+    let s' := (Seg.sys progs).runFrom s ext
+    (i, al, off) ∈ s.sh.cons →
+      (i, al, off) ∈ s'.sh.cons ∧ ∃ sft, visible s'.sh (segIndex i) = .ptr al sft ∧ off = i - sft := by
+  intro s s' hc
+  have hc' := (stable_run progs sched ext).2.2.2 _ hc
+  have hs' : s' = (Seg.sys progs).run (sched ++ ext) := run_append progs sched ext
+  refine ⟨hc', ?_⟩
+  have D := DInv_reachable progs (sched ++ ext)
+  rw [← hs'] at D
+  exact D.consok i al off hc'
+
+open Seg in
+/-- **Where an element lives** (composition with `addr_injective` / `addr_in_bounds`): the offset is the one `addrOf` computes
+from the index and `my_first_block`, it lies inside the published allocation the table maps the segment to (no touch of
+unallocated memory), and that allocation is the first block exactly for the segments below `my_first_block`. -/
+theorem element_address_is_addrOf (progs : List (List Op)) (sched : List Tid) (i al off : Nat) :
+    let s := (Seg.sys progs).run sched
+    s.sh.size < 2 ^ 64 → (i, al, off) ∈ s.sh.cons →
+      ∃ (sft : Nat) (e : AInfo), visible s.sh (segIndex i) = .ptr al sft ∧ s.sh.allocs[al]? = some e ∧ e.st = .pub ∧
+        off = (addrOf s.sh.fb i).2 ∧ off < e.n ∧ (e.first = true ↔ (addrOf s.sh.fb i).1 = 0 ∧ segIndex i < s.sh.fb) ∧
+        (e.first = false → e.seg = segIndex i ∧ (addrOf s.sh.fb i).1 = segIndex i) :=
+  fun hsz hc => cons_addr _ (DInv_reachable progs sched) i al off hc hsz
+
+open Seg in
+/-- **Two constructed elements never share storage.** -/
+theorem element_storage_disjoint (progs : List (List Op)) (sched : List Tid) (i al off j bl off' : Nat) :
+    let s := (Seg.sys progs).run sched
+    s.sh.size < 2 ^ 64 → (i, al, off) ∈ s.sh.cons → (j, bl, off') ∈ s.sh.cons → i ≠ j → (al, off) ≠ (bl, off') := by
+  intro s hsz h1 h2 hne
+  have D : DInv s := DInv_reachable progs sched
+  obtain ⟨s1, e1, v1, a1, _, o1, _, f1, r1⟩ := cons_addr s D i al off h1 hsz
+  obtain ⟨s2, e2, v2, a2, _, o2, _, f2, r2⟩ := cons_addr s D j bl off' h2 hsz
+  intro heq
+  simp only [Prod.mk.injEq] at heq
+  obtain ⟨hab, hoo⟩ := heq
+  subst hab
+  rw [a1] at a2; cases a2
+  have hi : i < 2 ^ 64 := by have := D.consbound i al off h1; omega
+  have hj : j < 2 ^ 64 := by have := D.consbound j al off' h2; omega
+  apply hne
+  apply addr_injective s.sh.fb i j hi hj
+  cases hf : e1.first with
+  | true =>
+    have g1 := f1.mp hf
+    have g2 := f2.mp hf
+    apply Prod.ext
+    · rw [g1.1, g2.1]
+    · rw [← o1, ← o2, hoo]
+  | false =>
+    have g1 := r1 hf
+    have g2 := r2 hf
+    apply Prod.ext
+    · rw [g1.2, g2.2, ← g1.1, ← g2.1]
+    · rw [← o1, ← o2, hoo]
+
+open Seg in
+/-- **Each index is constructed at most once** (and only below `size`). -/
+theorem elements_constructed_once (progs : List (List Op)) (sched : List Tid) :
+    let s := (Seg.sys progs).run sched
+    (s.sh.cons.map (·.1)).Nodup ∧ ∀ i al off, (i, al, off) ∈ s.sh.cons → i < s.sh.size :=
+  ⟨(DInv_reachable progs sched).consnodup, (DInv_reachable progs sched).consbound⟩
+
+open Seg in
+/-- **A call that returns has constructed its whole range**: every index of a range recorded as a call's result is in the
+construction ledger. -/
+theorem returned_range_constructed (progs : List (List Op)) (sched : List Tid) (tid : Nat) (t : Seg.Th) (a b j : Nat) :
+    let s := (Seg.sys progs).run sched
+    s.ths[tid]? = some t → Seg.Res.range a b ∈ t.res → a ≤ j → j < b → ∃ al off, (j, al, off) ∈ s.sh.cons :=
+  fun ht hr h1 h2 => ((DInv_reachable progs sched).d2 tid t ht).resok a b hr j h1 h2
+
+open Seg in
+/-- **Exactly one allocation per regular segment**: over the whole run the allocator is called at most once for a segment that
+is not part of the first block (the caller is the thread whose claimed range contains the segment's first index: `ownull`). -/
+theorem segment_allocated_once (progs : List (List Op)) (sched : List Tid) (x y : Nat) (e e' : AInfo) :
+    let s := (Seg.sys progs).run sched
+    s.sh.allocs[x]? = some e → s.sh.allocs[y]? = some e' → e.first = false → e'.first = false → e.seg = e'.seg → x = y :=
+  (DInv_reachable progs sched).uniq x y e e'
+
+open Seg in
+/-- **The first block is published once; losers of the election give their allocation back.**  Several threads may allocate a
+first block (the code allocates before its CAS on `table[0]`), at most one such allocation is ever published, and an allocation
+is only ever freed if it is a first-block allocation (a regular segment is never allocated and discarded). -/
+theorem first_block_one_winner (progs : List (List Op)) (sched : List Tid) :
+    let s := (Seg.sys progs).run sched
+    (∀ (x y : Nat) (e e' : AInfo), s.sh.allocs[x]? = some e → s.sh.allocs[y]? = some e' → e.first = true → e'.first = true →
+        e.st = .pub → e'.st = .pub → x = y) ∧
+    (∀ (x : Nat) (e : AInfo), s.sh.allocs[x]? = some e → e.st = .freed → e.first = true) :=
+  ⟨(DInv_reachable progs sched).onefirst, (DInv_reachable progs sched).freedfirst⟩
+
+open Seg in
+/-- **No leak.**  When every call has returned, every allocation ever made is either published in the current table or was given
+back by a first-block election loser; and (`slots_hold_published`) every pointer in a slot is a published allocation of the
+right size, so the destructor frees each allocation exactly once. -/
+theorem no_leak_at_quiescence (progs : List (List Op)) (sched : List Tid) :
+    let s := (Seg.sys progs).run sched
+    (∀ (j : Nat) (u : Seg.Th), s.ths[j]? = some u → u.ops = [] ∧ u.pc = .idle) →
+    ∀ (al : Nat) (e : AInfo), s.sh.allocs[al]? = some e →
+      (e.st = .freed ∧ e.first = true) ∨ (e.st = .pub ∧ ∃ k sft, visible s.sh k = .ptr al sft) :=
+  fun hf => quiescent_ledger _ (DInv_reachable progs sched) hf
+
+open Seg in
+theorem slots_hold_published (progs : List (List Op)) (sched : List Tid) (T k al sft : Nat) :
+    let s := (Seg.sys progs).run sched
+    slot s.sh T k = .ptr al sft → ∃ e : AInfo, s.sh.allocs[al]? = some e ∧ e.st = .pub ∧
+      ((e.first = true ∧ sft = 0 ∧ k < s.sh.fb ∧ e.n = segSize s.sh.fb) ∨
+       (e.first = false ∧ sft = segBase k ∧ e.seg = k ∧ s.sh.fb ≤ k ∧ e.n = segSize k)) :=
+  (DInv_reachable progs sched).sl T k al sft
+
+open Seg in
+/-- **A thread constructs into a segment only after it observed that segment's pointer non-null and not the failure tag** — for
+every fault plan: the pointer it constructs through is a real pointer it loaded (never null / the tag: no wild construction),
+my_segment_table is never nullptr, and no access through an embedded-table snapshot leaves the three embedded slots. -/
+theorem construct_only_through_observed_pointer (progs : List (List Op)) (fa ft fc : List Nat) (sched : List Tid) :
+    let s := (Seg.sysF progs fa ft fc).run sched
+    s.sh.wild = false ∧ s.sh.badTab = false ∧ s.sh.oobE = false ∧
+    ∀ (tid : Nat) (t : Seg.Th), s.ths[tid]? = some t → t.pc = .construct → ∃ al sft, t.segv = .ptr al sft := by
+  intro s
+  have G := GInv_reachable progs fa ft fc sched
+  exact ⟨G.wild, G.badTab, G.oobE, fun tid t ht hp => (G.locC tid t ht).cons hp⟩
+
+open Seg in
+/-- … and in failure-free runs the pointer is the one the *current* table holds for the element's segment. -/
+theorem construct_through_current_table (progs : List (List Op)) (sched : List Tid) (tid : Nat) (t : Seg.Th) :
+    let s := (Seg.sys progs).run sched
+    s.ths[tid]? = some t → t.pc = .construct → visible s.sh (segIndex t.idx) = t.segv :=
+  fun ht hp => ((DInv_reachable progs sched).d2 tid t ht).cons hp
+
+open Seg in
+/-- **grow_to_at_least(n), waiting path** (the call did not grow the vector itself): when it is about to return, every segment
+that holds an index `< n` is present in the current table.  This is `grow_to_at_least_waits_for_all` as far as the code goes:
+the full statement "every index `< n` is *constructed*" is FALSE for the code as written (see the two witnesses below and
+KNOWN_FINDINGS `gtal-grow-path-no-wait`): the waiting path waits for allocation only, and the growing path does not wait. -/
+theorem gtal_waits_for_all_partial (progs : List (List Op)) (sched : List Tid) (tid : Nat) (t : Seg.Th) (k : Nat) :
+    let s := (Seg.sys progs).run sched
+    s.ths[tid]? = some t → t.pc = .zSize → t.target ≠ 0 → k ≤ segIndex (t.target - 1) → visible s.sh k ≠ .null :=
+  fun ht hp hn hk => ((DInv_reachable progs sched).d2 tid t ht).zdone (Or.inr (Or.inr hp)) hn k hk
+
+open Seg in
+/-- the size-word tiling theorems hold for the protocol model too -/
+theorem grow_ranges_tile_seg (progs : List (List Op)) (sched : List Tid) :
+    let s := (Seg.sys progs).run sched
+    tiles 0 s.sh.log s.sh.size ∧
+    ∀ (i j : Nat) (t u : Seg.Th), i ≠ j → s.ths[i]? = some t → s.ths[j]? = some u → t.pc.claim = true → u.pc.claim = true →
+      t.stop ≤ u.start ∨ u.stop ≤ t.start :=
+  ⟨(DInv_reachable progs sched).tile, (DInv_reachable progs sched).disj⟩
+
+open Seg in
+/-- **The waiters of the table switch are released**: the thread whose long-table allocation throws sets
+my_segment_table_allocation_failed with its next access; the flag and the long table are never taken back; and a thread waiting
+in extend_table_if_necessary re-reads the flag in every iteration, so once the table is switched or the flag is set it leaves
+its loop after at most two of its own steps, whatever the others do (any fault plan). -/
+theorem table_switch_waiters_released (tid : Nat) (sched : List Tid) (s : Seg.St) (t : Seg.Th) :
+    s.ths[tid]? = some t → wrank s.sh t < 3 → wrank s.sh t ≤ sched.count tid →
+      ∃ p t', p <+: sched ∧ ((Seg.sys []).runFrom s p).ths[tid]? = some t' ∧ ¬ t'.tableWaiter :=
+  Seg.table_switch_waiters_released tid sched s t
+
+open Seg in
+theorem table_alloc_failure_sets_flag (s : Seg.St) (tid : Nat) (t : Seg.Th) :
+    s.ths[tid]? = some t → t.pc = .xFailStore → (Seg.step s tid).sh.failed = true :=
+  Seg.table_alloc_failure_sets_flag s tid t
+
+/-! ### Negation witnesses: the model exhibits the known findings of the code (KNOWN_FINDINGS.txt, C11) -/
+
+open Seg in
+theorem stuck_forever (s : Seg.St) (h : ∀ tid, Seg.step s tid = s) (sched : List Tid) : (Seg.sys []).runFrom s sched = s := by
+  induction sched with
+  | nil => rfl
+  | cons x xs ih => show (Seg.sys []).runFrom (Seg.step s x) xs = s; rw [h x]; exact ih
+
+open Seg in
+theorem step_out_of_range (s : Seg.St) (tid : Nat) (h : s.ths.length ≤ tid) : Seg.step s tid = s := by
+  unfold Seg.step; rw [List.getElem?_eq_none h]
+
+set_option maxRecDepth 100000 in
+open Seg in
+/-- `gtal-grow-path-no-wait`: grow_to_at_least(3) that itself grows `[2,3)` returns although segment 0 (claimed by a slower
+grow_by(2)) is not even allocated. -/
+theorem gtal_grow_path_returns_unallocated :
+    let s := (Seg.sys [[.growTo 3], [.growBy 2]]).run ([1, 1, 1] ++ List.replicate 14 0)
+    (s.ths[0]?.map (·.res)) = some [Seg.Res.range 2 3] ∧ visible s.sh 0 = .null ∧ s.sh.cons.map (·.1) = [2] := by
+  decide
+
+set_option maxRecDepth 100000 in
+open Seg in
+/-- the waiting path of grow_to_at_least(2) returns as soon as segment 0 is allocated, before any element is constructed -/
+theorem gtal_returns_before_construction :
+    let s := (Seg.sys [[.growBy 3], [.growTo 2]]).run (List.replicate 11 0 ++ List.replicate 7 1)
+    (s.ths[1]?.map (·.res)) = some [Seg.Res.none] ∧ s.sh.size = 3 ∧ s.sh.cons = [] := by
+  decide
+
+set_option maxRecDepth 100000 in
+open Seg in
+/-- `fault:ctor-throw:deadlock`: grow_by(3) claims `[1,4)`, its 2nd construction throws; segment 1 (first index 2) is never
+allocated nor tagged; the grow_by(9) that must switch the table waits for embedded slot 1 forever. -/
+theorem ctor_throw_deadlock_witness :
+    let s := (Seg.sysF [[.pushBack], [.growBy 3], [.growBy 9]] [] [] [2]).run
+      (List.replicate 20 0 ++ List.replicate 20 1 ++ List.replicate 20 2)
+    (∀ tid, Seg.step s tid = s) ∧ (s.ths[2]?.map (·.pc)) = some Seg.Pc.xWait ∧ (s.ths[1]?.map (·.res)) = some [Seg.Res.exc 2] := by
+  intro s
+  have hp : s.ths.all (fun t => t.parked s.sh) = true := by decide
+  exact ⟨all_parked_stuck s hp, by decide, by decide⟩
+
+set_option maxRecDepth 100000 in
+open Seg in
+/-- `fault:alloc-throw:segment:deadlock`: the eager allocation of the last segment of grow_by(5) throws (tagged), its other
+owned segment 1 stays null. -/
+theorem alloc_throw_deadlock_witness :
+    let s := (Seg.sysF [[.pushBack], [.growBy 5], [.growBy 9]] [2] [] []).run
+      (List.replicate 20 0 ++ List.replicate 20 1 ++ List.replicate 20 2)
+    (∀ tid, Seg.step s tid = s) ∧ (s.ths[2]?.map (·.pc)) = some Seg.Pc.xWait ∧ slot s.sh 0 1 = .null ∧ slot s.sh 0 2 = .tag := by
+  intro s
+  have hp : s.ths.all (fun t => t.parked s.sh) = true := by decide
+  exact ⟨all_parked_stuck s hp, by decide, by decide, by decide⟩
+
+set_option maxRecDepth 100000 in
+open Seg in
+/-- `fault:alloc-throw:first-block:deadlock` (F8): the first-block allocation throws in a thread with an embedded snapshot while
+my_first_block = 5: only embedded slots 1..2 are tagged; a push_back in segment 4 spins on the long table's slot 4 forever. -/
+theorem first_block_alloc_throw_deadlock_witness :
+    let s := (Seg.sysF [[.pushBack], [.growTo 30], [.pushBack]] [1] [] []).run
+      ([2] ++ List.replicate 4 1 ++ List.replicate 20 2 ++ List.replicate 30 1 ++ List.replicate 20 0)
+    (∀ tid, Seg.step s tid = s) ∧ (s.ths[0]?.map (·.pc)) = some Seg.Pc.kSpin ∧ s.sh.fb = 5 ∧ visible s.sh 0 = .tag ∧ visible s.sh 4 = .null := by
+  intro s
+  have hp : s.ths.all (fun t => t.parked s.sh) = true := by decide
+  exact ⟨all_parked_stuck s hp, by decide, by decide, by decide, by decide⟩
+
+set_option maxRecDepth 100000 in
+open Seg in
+/-- `fault:table-alloc-throw:gtal-waiter:deadlock`: the long-table allocation of grow_by(20) throws and sets the flag; the waiting
+path of grow_to_at_least(12) waits for the long table without ever looking at the flag. -/
+theorem gtal_waiter_ignores_flag_witness :
+    let s := (Seg.sysF [[.growBy 20], [.growTo 12]] [] [1] []).run (List.replicate 8 0 ++ List.replicate 4 1)
+    (∀ tid, Seg.step s tid = s) ∧ (s.ths[1]?.map (·.pc)) = some Seg.Pc.wSpinTab ∧ s.sh.failed = true ∧ s.sh.tptr = 0 := by
+  intro s
+  have hp : s.ths.all (fun t => t.parked s.sh) = true := by decide
+  exact ⟨all_parked_stuck s hp, by decide, by decide, by decide⟩
+
+set_option maxRecDepth 100000 in
+open Seg in
+/-- `fault:alloc-throw:first-block:overwrites-published-segment`: with faults, "slots are written once" FAILS for the code as
+written: the failure tagging of the first block overwrites the published pointer of segment 1 (element 2 was constructed there
+by a completed push_back). -/
+theorem failure_tag_overwrites_published_witness :
+    let s := (Seg.sysF [[.pushBack], [.pushBack], [.pushBack]] [2] [] []).run
+      ([0, 1] ++ List.replicate 20 2 ++ List.replicate 20 0 ++ List.replicate 20 1)
+    (s.ths[2]?.map (·.res)) = some [Seg.Res.range 2 3] ∧ s.sh.cons = [(2, 0, 0)] ∧ visible s.sh 1 = .tag := by
+  decide
+
+/-! Non-vacuity of the protocol theorems: a run in which three growers race for the first block and the table is switched. -/
+set_option maxRecDepth 100000 in
+open Seg in
+example :
+    let s := (Seg.sys [[.growBy 5], [.pushBack, .pushBack], [.growBy 9]]).run
+      ([0, 1, 2] ++ List.replicate 20 2 ++ List.replicate 40 1 ++ List.replicate 40 0 ++ List.replicate 60 2)
+    s.sh.size = 16 ∧ s.sh.tptr = 1 ∧ s.sh.fb = 4 ∧ s.sh.cons.length = 16 ∧ (s.ths.map (·.ops.length)) = [0, 0, 0] ∧
+    s.sh.allocs.length = 1 := by
+  decide
 
 end TbbVerif.C11
